@@ -341,6 +341,9 @@ pub struct Probe<I: Iterator> {
     inner: I,
     hint: Hint,
     remaining: usize,
+    /// non-fused source: after `remaining` elements the probe returns None ONCE and would then go
+    /// on yielding the `tail` further elements of `inner` if it is (wrongly) asked again
+    gap_pending: bool,
 }
 
 impl<I: Iterator> Probe<I> {
@@ -349,7 +352,14 @@ impl<I: Iterator> Probe<I> {
             inner,
             hint,
             remaining: len,
+            gap_pending: false,
         }
+    }
+
+    /// `inner` holds more than `len` elements: the probe is not fused (see `gap_pending`).
+    pub fn not_fused(mut self) -> Self {
+        self.gap_pending = true;
+        self
     }
 }
 
@@ -389,7 +399,13 @@ impl<I: Iterator> Iterator for Probe<I> {
         if fire {
             inject_panic("wrapped-next");
         }
-        let x = self.inner.next();
+        let x = if self.gap_pending && self.remaining == 0 {
+            // the (first) end of a non-fused source
+            self.gap_pending = false;
+            None
+        } else {
+            self.inner.next()
+        };
         match x {
             Some(_) => self.remaining = self.remaining.saturating_sub(1),
             None => {
